@@ -106,6 +106,7 @@ def run_case(ctx, drv, case, variant, record=None):
                             outcome=h.outcome(c) if c.finished else None,
                             raw=c.result, answers=[b.hex() for b in c.answers],
                             must_ok=c.must_ok.hex() if c.must_ok is not None else None))
+        spin = h.spin
         crash = None
         if h.run_task.done() and not h.run_task.cancelled() and h.run_task.exception() is not None:
             e = h.run_task.exception()
@@ -153,6 +154,9 @@ def run_case(ctx, drv, case, variant, record=None):
         ctx.oracle_fail("c14:listener-crash", case, "the listener leaves through its cleanup and signals its exit",
                         dict(crash=crash, observed=observed),
                         "_run died inside finally: remaining futures are never failed, _run_exit_event never set")
+    if spin:
+        ctx.oracle_fail("c14:listener-spin", case, "the listener leaves when its stream is dead",
+                        observed, "the listener keeps reading a dead stream: pending calls are never failed")
     for n_ in notes:
         ctx.mismatch("harness note", case, "", n_)
 
@@ -268,9 +272,9 @@ def gen_orders(rng, thorough):
                 pts = list(range(total + 1))
             pairs = [(a, b) for a in pts for b in pts if a <= b]
             if not thorough:
-                pairs = rng.sample(pairs, min(len(pairs), 14 if n < 3 else 8))
+                pairs = rng.sample(pairs, min(len(pairs), 30 if n < 3 else 16))
             elif n == 3:
-                pairs = rng.sample(pairs, min(len(pairs), 160))
+                pairs = rng.sample(pairs, min(len(pairs), 400))
             for a, b in pairs:
                 pre = interleave(rng, [[["K", k]] * 3 for k in range(n)]) + [["IOS"]]
                 step = rng.random() < 0.5
@@ -328,8 +332,7 @@ def gen_race(rng, thorough, count):
                     for steps in (1, 2, 3):
                         cases.append((nwait, nlate, late_phase, yp, steps))
     if not thorough:
-        must = [c for c in cases if c[0] in (1, 2) and c[1] == 1 and c[4] >= 2][:0]
-        cases = must + rng.sample(cases, min(len(cases), count))
+        cases = rng.sample(cases, min(len(cases), count))
     for nwait, nlate, late_phase, yp, steps in cases:
         n = nwait + nlate
         phases = [4] * nwait + [late_phase] * nlate
@@ -545,12 +548,12 @@ def run(ctx):
             kernel_trace_obligation(ctx, variant, rec[0])
         gens = [
             gen_orders(ctx.rng, not quick),
-            gen_loss(ctx.rng, not quick, 60),
-            gen_race(ctx.rng, not quick, 60),
-            gen_close(ctx.rng, not quick, 120 if quick else 1500),
-            gen_after_gone(ctx.rng, 80 if quick else 1000),
-            gen_odd_frames(ctx.rng, 80 if quick else 1000),
-            gen_random(ctx.rng, 150 if quick else 2500, 18 if quick else 30),
+            gen_loss(ctx.rng, not quick, 120),
+            gen_race(ctx.rng, not quick, 150),
+            gen_close(ctx.rng, not quick, 400 if quick else 4000),
+            gen_after_gone(ctx.rng, 250 if quick else 2500),
+            gen_odd_frames(ctx.rng, 250 if quick else 2500),
+            gen_random(ctx.rng, 500 if quick else 6000, 18 if quick else 30),
         ]
         for g in gens:
             for case in g:
